@@ -19,6 +19,8 @@ Inductive err :=
 | ErrNullDeref   (* member access through a null an<Candidate> *)
 | ErrBadRange    (* std::copy(first, last) with first > last *)
 | ErrFuel        (* a loop of the model ran out of fuel (never a C++ behaviour) *)
+| ErrRecursion   (* KeyBinder::PerformKeyBinding re-entered ProcessKey deeper than the model's fuel: only without
+                    the redirecting_ flag (a self-sending or cyclic binding then recurses until the stack is gone) *)
 | ErrDangling.   (* CommitHistory::Push(composition, input) dereferences [last] after the record it
                     points to was evicted by kMaxRecords (heap use after free) *)
 
